@@ -343,7 +343,14 @@ class time_limit:
     def __exit__(self, *exc):
         import signal
 
-        signal.setitimer(signal.ITIMER_REAL, 0)
+        # a tick may arrive while we are leaving: keep trying until the timer is really off
+        while True:
+            try:
+                signal.setitimer(signal.ITIMER_REAL, 0)
+                signal.signal(signal.SIGALRM, signal.SIG_IGN)
+                break
+            except TimeLimit:
+                continue
         return False
 
 
